@@ -15,6 +15,8 @@
 package redis
 
 import (
+	"errors"
+	"math"
 	"strconv"
 )
 
@@ -33,7 +35,14 @@ func (server *Server) registerSugarExecutors() {
 			if err != nil {
 				return nil, err
 			}
+			b, _ := getRet.Bytes()
+			if strconv.Itoa(retVal) != string(b) {
+				return nil, errors.New("value is not an integer or out of range")
+			}
 			currVal = retVal
+		}
+		if (val > 0 && currVal > math.MaxInt-val) || (val < 0 && currVal < math.MinInt-val) {
+			return nil, errors.New("increment or decrement would overflow")
 		}
 		newVal := currVal + val
 		opt := newDefaultSetOption()
@@ -83,6 +92,9 @@ func (server *Server) registerSugarExecutors() {
 		inc, err := nextIntegerArgument(cmd, "decrement", args)
 		if err != nil {
 			return nil, err
+		}
+		if inc == math.MinInt {
+			return nil, errors.New("increment or decrement would overflow")
 		}
 		return incdecExecutor(conn, cmd, key, -inc)
 	})
